@@ -756,6 +756,16 @@ C05_ByTimeout(W, S) == S.now <= W.fl.timeout
 \* deviation of the design, recorded as a known finding: a scheduler invocation that starts before the
 \* timeout and whose (simulated) runtime crosses it lets the clock overshoot by at most that runtime
 C05_SchedulerOvershoot(W, S) == S.now > W.fl.timeout /\ W.fl.sched_rt > 0 /\ S.now <= W.fl.timeout + W.fl.sched_rt
+\* C19 (closed loop): never more than `concurrency` graphs of a job graph in flight, never more than N in total
+GraphsOfJob(S, jg) == {g \in Range(S.wl) : S.gr[g].jg = jg}
+InFlight(S, g) == ~GComplete(S, g) /\ ~GCancelled(S, g)
+C19_ClosedLoop(S) ==
+    \A g \in Range(S.wl) : S.gr[g].closed =>
+        /\ Cardinality({h \in GraphsOfJob(S, S.gr[g].jg) : InFlight(S, h)}) <= S.gr[g].conc
+        /\ Cardinality(GraphsOfJob(S, S.gr[g].jg)) <= S.gr[g].ninv
+\* at the end of a run that was not cut by the timeout every declared invocation was materialised
+C19_ClosedLoopTotal(W, S) ==
+    S.now < W.fl.timeout => \A g \in Range(S.wl) : S.gr[g].closed => Cardinality(GraphsOfJob(S, S.gr[g].jg)) = S.gr[g].ninv
 \* C08: the end-of-run summary equals what happened to the tasks
 C08_Counters(S) ==
     /\ S.ctr.fin = Cardinality({t \in 1..NT(S) : S.ts[t].st = COMPLETED})
